@@ -27,6 +27,8 @@ RULE = ("circuits of 1-5 blocks over 8 block kinds (probe SBlock, probe AddonMai
         "the whole single-fault x cause x instant grid on a fixed 4-block circuit (both tiers) plus 6 000 / 400 000 "
         "random circuits; order-dependent scenarios are re-run with fresh allocations until both stop orders "
         "of the synchronous set were seen (tags stop-order-both-seen / stop-order-one-only); "
+        "persistent probe blocks (persistent=True) with and without an entry in the storage, so that the 'save the "
+        "state' step of run_forever meets started but uninitialised blocks; the storage entries after the run are compared; "
         "a case is distinct by its (input lines, trace) hash, non-trivial when at least one block was started")
 ASSUMPTIONS = [
     "instants of different origin never coincide (durations = 0 mod 10 ms and pairwise distinct, time-outs = 3, "
@@ -247,7 +249,7 @@ def build(scn, notes):
             kw = {}
             if 'd' in flags:
                 kw['initdef'] = 3
-            blk = PS(name, x_p=p, persistent='r' in flags, **kw)
+            blk = PS(name, x_p=p, persistent=('r' in flags or 'p' in flags), **kw)
             if 'r' in flags:
                 storage[str(blk)] = 7
         elif kind == 'async':
@@ -258,7 +260,7 @@ def build(scn, notes):
             if 'a' in flags:
                 cls = PAI
                 kw['init_timeout'] = b['ito'] / 1000
-            blk = cls(name, x_p=p, persistent='r' in flags, stop_timeout=b['sto'] / 1000, **kw)
+            blk = cls(name, x_p=p, persistent=('r' in flags or 'p' in flags), stop_timeout=b['sto'] / 1000, **kw)
             if 'r' in flags:
                 storage[str(blk)] = 7
         elif kind == 'cblock':
@@ -293,12 +295,12 @@ def build(scn, notes):
             blk = POutA(name, coro=coro, mode='wait', on_error=None, stop_timeout=b['sto'] / 1000, x_p=p, **kw)
         elif kind == 'ainit':
             kw = {'initdef': 3} if 'd' in flags else {}
-            blk = PAInit(name, x_p=p, persistent='r' in flags, init_timeout=b['ito'] / 1000, **kw)
+            blk = PAInit(name, x_p=p, persistent=('r' in flags or 'p' in flags), init_timeout=b['ito'] / 1000, **kw)
             if 'r' in flags:
                 storage[str(blk)] = 7
         elif kind == 'aplain':
             kw = {'initdef': 3} if 'd' in flags else {}
-            blk = PAP(name, x_p=p, persistent='r' in flags, stop_timeout=b['sto'] / 1000, **kw)
+            blk = PAP(name, x_p=p, persistent=('r' in flags or 'p' in flags), stop_timeout=b['sto'] / 1000, **kw)
             if 'r' in flags:
                 storage[str(blk)] = 7
         elif kind == 'inp':
@@ -336,8 +338,10 @@ def build(scn, notes):
         else:
             raise ValueError(kind)
         objs.append(blk)
-    if storage:
+    # a storage is set up as soon as one block is persistent; it may be empty (first run)
+    if any(f in b.get('flags', '') for b in blocks for f in 'rp'):
         edzed.get_circuit().set_persistent_data(storage)
+    notes['storage'] = storage
     return names, objs
 
 
@@ -550,6 +554,8 @@ def run_once(scn, pad=0):
     vtime.run(main)
     out['names'] = names
     blocks = list(circuit.getblocks())
+    keys = {str(b): i for i, b in enumerate(objs) if b is not None}
+    out['storage'] = sorted(str(keys[k]) for k in notes.pop('storage') if k in keys)
     out['outputs'] = {b.name: ('UNDEF' if b.output is edzed.UNDEF else repr(b.output)) for b in blocks}
     out['async_names'] = sorted(
         b.name for b in blocks
@@ -621,6 +627,8 @@ def encode_run(scn, r):
     trace.append(','.join(evs) or '-')
     lines.append('lifecycle initres')
     trace.append(','.join(sorted(f'{k}:{t}:{o}' for k, (t, o) in r['initres'].items())) or '-')
+    lines.append('lifecycle storage')
+    trace.append(','.join(r['storage']) or '-')
     lines.append('lifecycle left')
     trace.append(','.join(r['left']) or '-')
     lines.append('lifecycle after')
@@ -891,6 +899,18 @@ def defect_scenarios():
     yield finish([mk('sync', 'sG')], {'kind': 'shutdown', 'time': 205}, wait_init=True)
     # a main task that needs time to finish after its cancellation, no other asynchronous clean-up
     yield finish([mk('async', 's', cdur=4, sdur=0, sto=53), mk('sync', 's')], {'kind': 'shutdown', 'time': 205})
+    # a persistent block that is started but still uninitialised when the simulation is terminated, with and
+    # without an old entry in the storage: init_regular fault of an earlier / later block, never initialised
+    # block, abort during the asynchronous initialisation, start() fault after it
+    for pf in ('p', 'r', 'rR'):
+        yield finish([mk('sync', 's'), mk('sync', 'sG'), mk('sync', 'd' + pf), mk('async', 's')],
+                     {'kind': 'shutdown', 'time': 205})
+        yield finish([mk('sync', pf if pf != 'r' else 'rR'), mk('sync', 's' + pf), mk('async', 's'), mk('sync', 'sG')],
+                     {'kind': 'shutdown', 'time': 205})
+        yield finish([mk('async', 'a' + pf, idur=140, ito=163), mk('sync', 'd' + pf), mk('async', 's')],
+                     {'kind': 'abort', 'time': 15})
+        yield finish([mk('sync', 'd' + pf), mk('async', 's'), mk('sync', 'sS')], {'kind': 'shutdown', 'time': 205})
+        yield finish([mk('sync', 's' + pf), mk('async', 's' + pf)], {'kind': 'supportEnd', 'time': 205})
     # AddonAsync blocks without an (enabled) asynchronous clean-up belong to the synchronous set
     yield finish([mk('ainit', 's'), mk('aplain', 's', sto=0), mk('aplain', 's'), mk('sync', 's'),
                   mk('async', 's')], {'kind': 'shutdown', 'time': 205})
@@ -918,8 +938,11 @@ def random_scenario(rng):
         if kind in ('sync', 'async', 'ainit', 'aplain'):
             r = rng.random()
             fl = 's' if r < 0.6 else ('d' if r < 0.8 else ('sd' if r < 0.9 else ''))
-            if rng.random() < 0.15:
-                fl += 'r' + ('R' if rng.random() < 0.5 else '')
+            x = rng.random()
+            if x < 0.15:
+                fl += 'r' + ('R' if rng.random() < 0.5 else '')     # persistent, the storage has an entry
+            elif x < 0.40:
+                fl += 'p'                                           # persistent, no entry (first run)
             for f, p in (('G', 0.06), ('V', 0.08), ('H', 0.1)):
                 if rng.random() < p:
                     fl += f
